@@ -2514,3 +2514,45 @@ CASES += [
         }
         match bdd {"""),
 ]
+
+CASES += [
+    # ------------------------------------------------------------------ PA paired calls (round 10: C03-r10m1)
+    dict(name="pa-early-return-between-begin-and-end", file=CNFF, rule="PA", props=["C15"], expect="Cnf::eval:eval_scope_begin/eval_scope_end",
+         old="""    pub fn eval(&self, assignment: &Vec<bool>) -> bool {
+        assert!(assignment.len() >= self.num_vars());""",
+         new="""    fn eval_scope_begin(&self) {}
+    fn eval_scope_end(&self) {}
+    pub fn eval(&self, assignment: &Vec<bool>) -> bool {
+        assert!(assignment.len() >= self.num_vars());
+        self.eval_scope_begin();""",
+         more=[(CNFF, """        // no unsat clauses
+        true
+    }""", """        // no unsat clauses
+        self.eval_scope_end();
+        true
+    }""")]),
+    dict(name="pa-end-on-every-path-ok", file=CNFF, rule="PA", props=["C15"], expect=None,
+         old="""    pub fn eval(&self, assignment: &Vec<bool>) -> bool {
+        assert!(assignment.len() >= self.num_vars());""",
+         new="""    fn eval_scope_begin(&self) {}
+    fn eval_scope_end(&self) {}
+    pub fn eval(&self, assignment: &Vec<bool>) -> bool {
+        assert!(assignment.len() >= self.num_vars());
+        self.eval_scope_begin();""",
+         more=[(CNFF, """        // no unsat clauses
+        true
+    }""", """        // no unsat clauses
+        self.eval_scope_end();
+        true
+    }"""),
+               (CNFF, """            if !clause_sat {
+                return false;
+            }
+        }
+        // no unsat clauses""", """            if !clause_sat {
+                self.eval_scope_end();
+                return false;
+            }
+        }
+        // no unsat clauses""")]),
+]
